@@ -42,6 +42,11 @@ pub struct Case {
     pub init_st_denom: Option<String>,
     #[serde(default)]
     pub init_b_denom: Option<String>,
+    /// denominations the hub under test is instantiated with (arbitrary strings: mixed case, blanks, ibc/..., empty)
+    #[serde(default)]
+    pub init_hub_denom: Option<String>,
+    #[serde(default)]
+    pub init_hub_reward_denom: Option<String>,
     pub steps: Vec<Step>,
 }
 
@@ -64,6 +69,14 @@ fn addr() -> BoxedStrategy<String> {
 }
 fn denom() -> BoxedStrategy<String> {
     prop_oneof![3 => proptest::sample::select(vec!["usei", "kusd", "uatom", "ujunk", "x"]).prop_map(|s| s.to_string()), 1 => "[a-z]{0,8}"].boxed()
+}
+fn odd_denom() -> BoxedStrategy<String> {
+    prop_oneof![
+        2 => proptest::sample::select(vec!["ibc/27394FB092D2ECCD56123C74F36E4C1F926001CEADA9CA97EA622B25F41E5EB2", " usei", "uSei", "factory/sei1abc/kUSD", "usei ", ""]).prop_map(|s| s.to_string()),
+        1 => denom(),
+        1 => "[a-zA-Z/ ]{1,10}",
+    ]
+    .boxed()
 }
 fn opt<T: std::fmt::Debug + Clone + 'static>(s: BoxedStrategy<T>) -> BoxedStrategy<Option<T>> {
     proptest::option::weighted(0.4, s).boxed()
@@ -94,9 +107,11 @@ pub fn strategy() -> BoxedStrategy<Case> {
         dec_class(),
         proptest::option::weighted(0.5, prop_oneof![2 => Just(String::new()), 2 => denom()]),
         proptest::option::weighted(0.3, denom()),
+        proptest::option::weighted(0.35, odd_denom()),
+        proptest::option::weighted(0.25, odd_denom()),
         proptest::collection::vec((prop_oneof![9 => Just(true), 1 => Just(false)], msg_strategy()).prop_map(|(by_owner, msg)| Step { by_owner, msg }), 1..14),
     )
-        .prop_map(|(init_fee, init_threshold, init_keeper, init_st_denom, init_b_denom, steps)| Case { init_fee, init_threshold, init_keeper, init_st_denom, init_b_denom, steps })
+        .prop_map(|(init_fee, init_threshold, init_keeper, init_st_denom, init_b_denom, init_hub_denom, init_hub_reward_denom, steps)| Case { init_fee, init_threshold, init_keeper, init_st_denom, init_b_denom, init_hub_denom, init_hub_reward_denom, steps })
         .boxed()
 }
 
@@ -154,6 +169,12 @@ impl Prop for C20 {
             let mut hi = hub_init(&cfg);
             hi.peg_recovery_fee = c.init_fee.dec();
             hi.er_threshold = c.init_threshold.dec();
+            if let Some(d) = &c.init_hub_denom {
+                hi.underlying_coin_denom = d.clone();
+            }
+            if let Some(d) = &c.init_hub_reward_denom {
+                hi.reward_denom = d.clone();
+            }
             let before = w.clone();
             let r = w.instantiate(Kind::Hub, OWNER, "hub2", &hi);
             if c.init_fee.atomics() > ONE {
@@ -170,7 +191,8 @@ impl Prop for C20 {
                     }
                     Ok(()) => {
                         let p: Parameters = w.query("hub2", &HubQuery::Parameters {}).unwrap_or_else(|e| qfail("hub Parameters", e));
-                        if p.peg_recovery_fee != c.init_fee.dec() || p.er_threshold != c.init_threshold.dec().min(Decimal::one()) || p.peg_recovery_fee > Decimal::one() || p.er_threshold > Decimal::one() {
+                        if p.peg_recovery_fee != c.init_fee.dec() || p.er_threshold != c.init_threshold.dec().min(Decimal::one()) || p.peg_recovery_fee > Decimal::one() || p.er_threshold > Decimal::one()
+                            || p.underlying_coin_denom != c.init_hub_denom.clone().unwrap_or(USEI.into()) || p.reward_denom != c.init_hub_reward_denom.clone().unwrap_or(KUSD.into()) {
                             out.fail(v("instantiate-stored-values", format!("hub instantiated with fee {} threshold {} stores {:?}", c.init_fee.dec(), c.init_threshold.dec(), p)));
                             return out;
                         }
@@ -199,14 +221,21 @@ impl Prop for C20 {
             }
         }
         // ---------------- reference model of the deployed contracts
+        // parameter updates go to the hub instantiated with generated denominations when there is one
+        let use_h2 = c.init_fee.atomics() <= ONE && (c.init_hub_denom.is_some() || c.init_hub_reward_denom.is_some());
+        let params_addr: &str = if use_h2 { "hub2" } else { HUB };
+        let hub_denom0: String = if use_h2 { c.init_hub_denom.clone().unwrap_or(USEI.into()) } else { USEI.into() };
+        if use_h2 {
+            out.label("hub_with_generated_denoms");
+        }
         let mut hub = HubModel {
             params: Parameters {
                 epoch_period: cfg.epoch,
-                underlying_coin_denom: USEI.into(),
+                underlying_coin_denom: hub_denom0.clone(),
                 unbonding_period: cfg.unbonding,
-                peg_recovery_fee: cfg.fee.dec(),
-                er_threshold: cfg.threshold.dec(),
-                reward_denom: KUSD.into(),
+                peg_recovery_fee: if use_h2 { c.init_fee.dec() } else { cfg.fee.dec() },
+                er_threshold: if use_h2 { c.init_threshold.dec().min(Decimal::one()) } else { cfg.threshold.dec() },
+                reward_denom: if use_h2 { c.init_hub_reward_denom.clone().unwrap_or(KUSD.into()) } else { KUSD.into() },
                 paused: Some(false),
             },
             owner: OWNER.into(),
@@ -264,7 +293,7 @@ impl Prop for C20 {
                         p.paused = *paused;
                     }
                     (
-                        w.tx(sender, HUB, &HubExec::UpdateParams { epoch_period: *epoch, unbonding_period: *unbonding, peg_recovery_fee: fee.map(|d| d.dec()), er_threshold: threshold.map(|d| d.dec()), paused: *paused, reward_denom: reward_denom.clone() }, &[]),
+                        w.tx(sender, params_addr, &HubExec::UpdateParams { epoch_period: *epoch, unbonding_period: *unbonding, peg_recovery_fee: fee.map(|d| d.dec()), er_threshold: threshold.map(|d| d.dec()), paused: *paused, reward_denom: reward_denom.clone() }, &[]),
                         ok,
                     )
                 }
@@ -272,7 +301,7 @@ impl Prop for C20 {
                     let all = [dispatcher, registry, bsei, stsei, airdrop, rewards, updater];
                     mixed = all.iter().any(|x| x.is_some()) && all.iter().any(|x| x.is_none());
                     // while paused every UpdateConfig is refused (C11)
-                    let paused = hub.params.paused.unwrap_or(false);
+                    let paused = !use_h2 && hub.params.paused.unwrap_or(false);
                     let addrs_ok = all.iter().all(|a| a.as_ref().map(|s| canon_ok(s)).unwrap_or(true));
                     let ok = st.by_owner && !paused && addrs_ok && bsei.is_none() && stsei.is_none();
                     if bsei.is_some() || stsei.is_some() {
@@ -412,12 +441,12 @@ impl Prop for C20 {
                 }
             }
             // ---------------- queries equal the model
-            let p: Parameters = w.query(HUB, &HubQuery::Parameters {}).unwrap_or_else(|e| qfail("hub Parameters", e));
+            let p: Parameters = w.query(params_addr, &HubQuery::Parameters {}).unwrap_or_else(|e| qfail("hub Parameters", e));
             if p != hub.params {
                 out.fail(v("hub-parameters-differ-from-model", format!("after step {} ({:?}): Parameters {:?}, reference {:?}", i, st.msg, p, hub.params)));
                 return out;
             }
-            if p.peg_recovery_fee > Decimal::one() || p.er_threshold > Decimal::one() || p.underlying_coin_denom != USEI {
+            if p.peg_recovery_fee > Decimal::one() || p.er_threshold > Decimal::one() || p.underlying_coin_denom != hub_denom0 {
                 out.fail(v("hub-parameter-out-of-range", format!("after step {}: {:?}", i, p)));
                 return out;
             }
